@@ -218,6 +218,7 @@ class Sim:
         self._line_counts = {}
         self._line_counts_after = {}
         self._in_oracle = False
+        self.alias_violations = []
         self._line_fault = None
         self._line_seen = 0
         self._in_update = False
@@ -640,10 +641,20 @@ class Sim:
             h.ev("update", st, step, repr(cur["time"]), repr(cur["dt_in"]))
             sim._call_checkers("on_update_start", cur)
             sim.fault_at("update.before", step)
-            if stub:
-                result = sim._stub_update(solver, state, running_state, dt, values)
-            else:
-                result = real_update(state, running_state, dt, **values)
+            try:
+                if stub:
+                    result = sim._stub_update(solver, state, running_state, dt, values)
+                else:
+                    result = real_update(state, running_state, dt, **values)
+            finally:
+                # the state the runner holds (and will save if the step is abandoned) must not be
+                # mutated in place by the update
+                if cur["in"] is not None:
+                    for k_, v_ in values.items():
+                        if v_ is not None and not np.array_equal(np.asarray(v_), cur["in"][k_]):
+                            sim.alias_violations.append((st, step, k_))
+                            h.probe("input_mutated_in_place")
+                            break
             cur["dt"] = float(result[0])
             names = list(values)
             outs = list(result[1:])
@@ -719,7 +730,20 @@ class Sim:
             out_file = out["path"]
             if out.get("absolute", True):
                 out_file = os.path.join(self.workdir, out_file)
-        options = B.build_options(scn["options"], out_file)
+        late = scn.get("options_late")
+        if late:
+            # option life cycle: the options object passed validation, was then changed in place
+            first = dict(scn["options"])
+            for k in late["updates"]:
+                first[k] = late["valid"].get(k, B.OPTION_DEFAULTS.get(k))
+                if first[k] is None and k not in ("terminal_psi",):
+                    first.pop(k)
+            options = B.build_options(first, out_file)
+            if late["phase"] == "pre":
+                options.validate()
+                B.apply_option_updates(options, late["updates"])
+        else:
+            options = B.build_options(scn["options"], out_file)
         self.options = options
         kw = {}
         if self.seed_solution is not None:
@@ -733,6 +757,8 @@ class Sim:
             **kw,
         )
         self.A_obj = A_obj
+        if late and late["phase"] == "post":
+            B.apply_option_updates(solver.options, late["updates"])
         return solver
 
     def run(self):
